@@ -26,7 +26,10 @@ def obeyStep (s : Unit) (toks : List String) : Unit × List String :=
       match Tune.makeTuneOk ⟨a, b, c⟩ ⟨d, e, f⟩ with
       | .frameMaxTooSmall m r => (s, ["tune-ok -", s!"open err FrameMaxTooSmall {m} {r}", "done"])
       | .ok t =>
-        let (ids, err) := obeyOpen n (Slots.new t.channelMax) []
+        -- `stray:ID`: a Channel.CloseOk for a channel that is not open reaches `chan_slots.remove(ID)`
+        let strays := sizes.filterMap fun z => if z.startsWith "stray:" then (z.drop 6).toString.toNat? else none
+        let slots0 := strays.foldl (fun s id => (Slots.remove s id).1) (Slots.new t.channelMax)
+        let (ids, err) := obeyOpen n slots0 []
         let head := [s!"tune-ok {t.channelMax} {t.frameMax} {t.heartbeat}", "open ok",
                      s!"channels opened={ids.length} max-id={ids.foldl max 0} err={err}"]
         let pubs := if ids.isEmpty then [] else
